@@ -367,7 +367,7 @@ pub fn run(c: &Ctx) {
     }
     // (b) histories
     let n = c.tier.pick(400, 6000);
-    let cfg = GenCfg { names: NAMES3, avoid_through_link: true, plain_spelling: true, wild: false };
+    let cfg = GenCfg { names: NAMES3, avoid_through_link: true, plain_spelling: true, wild: false, handles: false };
     set_shrink_budget(150);
     run_proptest("diff", 201, || history(25), n, |specs: &Vec<OpSpec>| {
         // resolve against a scratch model rooted at "/", then re-root every path at "@"
